@@ -33,8 +33,10 @@
 //                     0..0x1100FF and 0xFFFFFF00..0xFFFFFFFF as a 4-byte input; x full battery
 //   E  uint8        : all 256 values (length 1, and length 2 with trailing 00/FF), empty input
 //      uint16_be/le : all 65536 values (+ trailing byte 00/FF), all truncations
-//      uint32_be/le : all values with every byte from {00,01,7F,80,FE,FF} (1296), all truncations, trailing byte
-//      uint64_be/le : all values with every byte from {00,01,7F,80,FE,FF} (1679616), all truncations, trailing byte
+//      uint32_be/le : all values with every byte from {00,01,7F,80,FE,FF} (1296), all truncations; N+1 byte inputs
+//                     (value bytes from {00,7F,80,FF}, trailing byte 00/FF)
+//      uint64_be/le : all values with every byte from {00,01,7F,80,FE,FF} (1679616), all truncations; N+1 byte
+//                     inputs as above
 //                     each x (13 unmasked rules + 7 masks x 7 masked rules); uintN string / mask_string rules with
 //                     every byte value at every position and every truncation
 //  quick tier adds
@@ -57,6 +59,7 @@
 #include <algorithm>
 #include <bitset>
 #include <deque>
+#include <exception>
 #include <type_traits>
 
 #include <tao/pegtl.hpp>
@@ -90,6 +93,8 @@ static const Entry* volatile g_cur_rule = nullptr;  // what the library is worki
 static volatile size_t g_cur_n = 0;
 
 static void on_fault( int, siginfo_t*, void* );
+static void on_abort( int );
+static void on_terminate();
 
 static void guard_init()
 {
@@ -106,6 +111,8 @@ static void guard_init()
    sa.sa_flags = SA_SIGINFO;
    sigaction( SIGSEGV, &sa, nullptr );
    sigaction( SIGBUS, &sa, nullptr );
+   signal( SIGABRT, on_abort );
+   std::set_terminate( on_terminate );
 }
 
 // =====================================================================================================
@@ -478,22 +485,42 @@ static void report( const Entry& e, const u8* p, const size_t n, const Expect& x
    vf::violation( sig, detail, case_string( e, p, n ) );
 }
 
+// The library call in progress died (over-read into the guard page, std::terminate, failed assert): report it as a
+// violation of the current case, write the STAT line (not exhaustive) and leave.
+static void crash_report( const char* how, const long offset )
+{
+   const Entry* e = g_cur_rule;
+   if( !e ) {
+      fprintf( stderr, "c10: harness crashed outside a library call (%s)\n", how );
+      _exit( 3 );
+   }
+   g_cur_rule = nullptr;
+   const size_t n = g_cur_n;
+   const std::string sig = "C10|" + std::string( e->fam->name ) + "::" + e->kindname + " " + how;
+   const std::string detail = "\"rule\":\"" + vf::jesc( e->name ) + "\",\"input_hex\":\"" + vf::hex( std::string( reinterpret_cast< const char* >( slot( n ) ), n ) ) + "\",\"expected\":\"match or no match without touching memory past the given size\",\"observed\":\"" + how + ( offset >= 0 ? " at offset " + std::to_string( offset ) + " of a " + std::to_string( n ) + " byte input (guard page fault)" : std::string() ) + "\"";
+   vf::violation( sig, detail, case_string( *e, slot( n ), n ) );
+   vf::st.exhaustive = false;
+   vf::st.note += " ABORTED after a crash inside the library; remaining domain not explored.";
+   vf::finish();
+   _exit( 0 );
+}
+
 static void on_fault( int, siginfo_t* si, void* )
 {
    const u8* a = static_cast< const u8* >( si->si_addr );
-   const Entry* e = g_cur_rule;
-   if( e && a >= g_guard && a < g_guard + g_page ) {
-      const size_t n = g_cur_n;
-      const std::string sig = "C10|" + std::string( e->fam->name ) + "::" + e->kindname + " reads beyond the end of the input";
-      const std::string detail = "\"rule\":\"" + vf::jesc( e->name ) + "\",\"input_hex\":\"" + vf::hex( std::string( reinterpret_cast< const char* >( slot( n ) ), n ) ) + "\",\"expected\":\"no access past the given size\",\"observed\":\"read at offset " + std::to_string( long( a - slot( n ) ) ) + " of a " + std::to_string( n ) + " byte input (guard page fault)\"";
-      vf::violation( sig, detail, case_string( *e, slot( n ), n ) );
-      vf::st.exhaustive = false;
-      vf::st.note += " ABORTED after a guard page fault; remaining domain not explored.";
-      vf::finish();
-      _exit( 0 );
-   }
+   if( a >= g_guard && a < g_guard + g_page ) crash_report( "reads beyond the end of the input", long( a - slot( g_cur_n ) ) );
    fprintf( stderr, "c10: unexpected fault at %p\n", si->si_addr );
    _exit( 3 );
+}
+
+static void on_abort( int )
+{
+   crash_report( "aborts the process (std::terminate or failed assert)", -1 );
+}
+
+static void on_terminate()
+{
+   crash_report( "aborts the process (std::terminate or failed assert)", -1 );
 }
 
 // per-family counters
@@ -1394,8 +1421,8 @@ int main( int argc, char** argv )
    const bool thorough = vf::args.thorough();
 
    vf::st.note = thorough
-                    ? "C10 thorough: ascii/abnf all 0-2 byte inputs x every class rule; utf8 ALL byte sequences of length 0..4 (2^32 four-byte inputs x core battery of 6 rules, lengths 0..3 and boundary 4/5-byte inputs x full battery of 27 rules); utf16_be/le ALL 2^32 unit pairs (core battery) + all 0..3 byte inputs; utf32_be/le ALL 2^32 values (core) + boundary byte strings of length 0..5; uint8/uint16 all values, uint32 ALL 2^32 values (core battery of 8 rules) + boundary values with all 62 rules (7 masks), uint64 all 6^8 boundary structured values; every truncation of every enumerated unit; string/istring/mask_string rules: every byte at every position. Inputs end at a PROT_NONE page (over-reads fault). Line/column counting of UTF-16/32 and binary rules is out of scope (documented limitation)."
-                    : "C10 quick: ascii/abnf all 0-2 byte inputs x every class rule; utf8 ALL byte sequences of length 0..3 x 27 rules, 4-byte inputs: ALL 2^32 x utf8::any, lead F0..FF x all 2^24 continuations and lead 00..EF x all (b1,b2) x b3 in {00,7F,80,8F,90,9F,A0,BF,C0,FF} (core battery of 6 rules), every lead x boundary continuations (full battery, also with a 5th byte); utf16_be/le every first unit alone / + third byte from boundary set / + second unit from {0000,D7FF,D800,DBFF,DC00,DFFF,E000,FFFF} (full battery), every surrogate first unit x ALL second units (core); utf32_be/le all byte strings of length 0..5 over {00,01,10,11,7F,80,D7,D8,DF,E0,FF} and all values 0..0x1100FF, 0xFFFFFF00..0xFFFFFFFF; uint8/uint16 all values, uint32/uint64 all values with bytes from {00,01,7F,80,FE,FF}, 62 rules each (7 masks); every truncation of every enumerated unit; string/istring/mask_string rules: every byte at every position. Inputs end at a PROT_NONE page (over-reads fault). Line/column counting of UTF-16/32 and binary rules is out of scope (documented limitation).";
+                    ? "C10 thorough: ascii/abnf all 0-2 byte inputs x every class rule; utf8 ALL byte sequences of length 0..4 (2^32 four-byte inputs x core battery of 6 rules, lengths 0..3 and boundary 4/5-byte inputs x full battery of 22 rules); utf16_be/le ALL 2^32 unit pairs (core battery) + all 0..3 byte inputs; utf32_be/le ALL 2^32 values (core) + boundary byte strings of length 0..5; uint8/uint16 all values, uint32 ALL 2^32 values (core battery of 8 rules) + boundary values with all 62 rules (7 masks), uint64 all 6^8 boundary structured values; every truncation of every enumerated unit; string/istring/mask_string rules: every byte at every position. Inputs end at a PROT_NONE page (over-reads fault). Line/column counting of UTF-16/32 and binary rules is out of scope (documented limitation)."
+                    : "C10 quick: ascii/abnf all 0-2 byte inputs x every class rule; utf8 ALL byte sequences of length 0..3 x 22 rules, 4-byte inputs: ALL 2^32 x utf8::any, lead F0..FF x all 2^24 continuations and lead 00..EF x all (b1,b2) x b3 in {00,7F,80,8F,90,9F,A0,BF,C0,FF} (core battery of 6 rules), every lead x boundary continuations (full battery, also with a 5th byte); utf16_be/le every first unit alone / + third byte from boundary set / + second unit from {0000,D7FF,D800,DBFF,DC00,DFFF,E000,FFFF} (full battery), every surrogate first unit x ALL second units (core); utf32_be/le all byte strings of length 0..5 over {00,01,10,11,7F,80,D7,D8,DF,E0,FF} and all values 0..0x1100FF, 0xFFFFFF00..0xFFFFFFFF; uint8/uint16 all values, uint32/uint64 all values with bytes from {00,01,7F,80,FE,FF}, 62 rules each (7 masks); every truncation of every enumerated unit; string/istring/mask_string rules: every byte at every position. Inputs end at a PROT_NONE page (over-reads fault). Line/column counting of UTF-16/32 and binary rules is out of scope (documented limitation).";
 
    // a few real cases for the evidence file
    sample_case( "utf8::any", "\xF4\x8F\xBF\xBF" );
@@ -1421,9 +1448,6 @@ int main( int argc, char** argv )
    if( !g_stop ) sweep_uint( "uint64_be", 8, true, thorough );
    if( !g_stop ) sweep_uint( "uint64_le", 8, false, thorough );
 
-   for( const Entry& e : g_rules ) {
-      ( void )e;
-   }
    vf::count( "rules_registered", long( g_rules.size() ) );
    std::map< std::string, const Fam* > fams;
    for( const Entry& e : g_rules ) fams[ e.fam->name ] = e.fam;
